@@ -52,12 +52,28 @@ RULE = ("exhaustive in Rust: every n in 0..=2^24+2^16 through the real function 
         "distinct = distinct (n, divisor); non-trivial = the real function returned >= 1")
 
 
-def _run_once(ctx, tier, label):
+def _sweep_of(cases):
+    """The exhaustive Rust sweep's own result lines (SLSWEEP + the SLWRONG list), read directly:
+    the verdict on [0, 2^24] does not depend on the OCaml driver being buildable."""
+    rc, out, _ = vlib.sh(f"grep -m1 '^SLSWEEP' {cases}; grep '^SLWRONG' {cases} | head -1000", timeout=120)
+    sweep, wrong = None, []
+    for l in out.splitlines():
+        t = l.split()
+        if t and t[0] == "SLSWEEP" and len(t) == 8:
+            sweep = dict(zip(("upto", "evaluated", "wrong", "wrong_le_2p24", "first", "last", "panics"), map(int, t[1:])))
+        elif t and t[0] == "SLWRONG" and len(t) == 4:
+            wrong.append((int(t[1]), int(t[2]), int(t[3])))
+    return sweep, wrong
+
+
+def _run_once(ctx, tier, label, have_driver):
     cases = os.path.join(ctx.work, "slots_cases.txt")
     rc, out, dt_h = vlib.sh([ctx.bin("slots"), "run", cases],
                             env={"VERIF_TIER": tier, "VERIF_SEED": str(ctx.seed)}, timeout=1200)
     if rc != 0:
         ctx.broken.append({"kind": "correspondence", "what": "slots harness failed", "detail": out[-800:]})
+        return None, [], cases
+    if not have_driver:
         return None, [], cases
     rc, out, dt_d = vlib.sh([vlib.DRIVER, cases], timeout=2400)
     summ = vlib.parse_summary(out).get("SL")
@@ -83,16 +99,27 @@ def run_slots(ctx, report_zero_blob=True, build=True):
     report_zero_blob=False drops the n = 0 class (for a caller that decides the "never less than
     one slot" clause at the API level instead)."""
     cov = ctx.coverage
+    have_driver = True
     if build:
-        if not (ctx.cargo_build(["slots"]) and ctx.ocaml_build()):
+        if not ctx.cargo_build(["slots"]):
             return None
+        have_driver = ctx.ocaml_build()
     tiers = ["quick", "thorough"] if ctx.tier == "thorough" else ["quick"]
     total = None
     mon_lines, corr_lines = [], []
     samples = []
     for t in tiers:
-        summ, fails, cases = _run_once(ctx, t, f"slots[{t}]")
+        summ, fails, cases = _run_once(ctx, t, f"slots[{t}]", have_driver)
         if summ is None:
+            # no driver (extraction broken on this tree): the Rust sweep alone still decides [0, 2^24]
+            sweep, wrong = _sweep_of(cases) if os.path.exists(cases) else (None, [])
+            if sweep:
+                cov["slots_sweep"] = sweep
+                ctx.log(f"slots[{t}] (no driver): sweep {sweep}")
+                for n, v, ex in [w for w in wrong if 1 <= w[0] <= 2 ** 24][:1]:
+                    detail = f"sweep: n={n} exact={ex} impl={v}"
+                    ctx.add_violation("compute_appointment_slots differs from ceil(n / ENCRYPTED_BLOB_MAX_SIZE) inside [0, 2^24]: " + detail,
+                                      {"kind": "slots", "case": f"SL {n}", "detail": detail}, {"kind": "slots-monitor", "n": n})
             break
         mon_lines += [f for f in fails if f.startswith("FAIL mon")]
         corr_lines += [f for f in fails if not f.startswith("FAIL mon")]
@@ -119,7 +146,7 @@ def run_slots(ctx, report_zero_blob=True, build=True):
             total["harness_s"] += summ["harness_s"]
             total["driver_s"] += summ["driver_s"]
         # a broken tie in the quick tier widens the search to the thorough generator
-        if (corr_lines or summ["thm_fail"]) and not mon_lines and t == "quick" and "thorough" not in tiers:
+        if (corr_lines or summ["thm_fail"]) and summ["mon_fail"] == 0 and t == "quick" and "thorough" not in tiers:
             tiers.append("thorough")
     if total:
         cov["slots_evaluations"] = total["cases"] + total["sld_cases"]
@@ -160,6 +187,9 @@ def run_slots(ctx, report_zero_blob=True, build=True):
             ctx.add_violation("compute_appointment_slots differs from ceil(n / ENCRYPTED_BLOB_MAX_SIZE) inside [0, 2^24]: " + detail,
                               {"kind": "slots", "case": case, "detail": detail},
                               {"kind": "slots-monitor", "n": int(n) if n and n.lstrip("-").isdigit() else n})
+    if total and total["mon_fail"] > 0 and seen_formula == 0:
+        ctx.broken.append({"kind": "correspondence", "what": "the driver counted monitor failures but printed none",
+                           "detail": str(total)})
     return total
 
 
